@@ -16,7 +16,7 @@ from vf.seq import outcome
 PROP = "C15"
 LEVEL = "exploration"
 RULE = ("Buffer and PrintBuffer: all n! arrival orders for n<=7 (quick) / n<=8 (thorough), each with 3 seeded choices "
-        "of drain points (after every arrival / random subset / only at the end), plus seeded orders up to n=200; "
+        "of drain points (after every arrival / random subset / only at the end), with unique payloads and with falsy / empty payloads (None, 0, '', blank lines), plus seeded orders up to n=200; "
         "then flush()/clear() and a second round on the same object. CircularBuffer: capacities 1..9, seeded "
         "put/clear sequences, every index in [-c-2, c+2] probed after every step. distinct_nontrivial = distinct "
         "(structure, arrival order, drain pattern) resp. (capacity, content) cases with >=2 items.")
@@ -42,10 +42,16 @@ def drain_points(n, mode, rng):
     return {i for i in range(n) if rng.random() < 0.4} | ({n - 1} if n else set())
 
 
-def run_buffer(order, drains, via_call_chain):
+FALSY = [None, 0, "", (), False, 0.0, []]
+
+
+def run_buffer(order, drains, via_call_chain, falsy=False):
     """Feeds `order` to a real Buffer, draining after the arrivals in `drains`. Returns None or (mech, summary)."""
     from windpyutils.buffers import Buffer
     b = Buffer()
+    if falsy:
+        # items that are falsy / None / equal to each other: position in the output is all that identifies them
+        return _run_buffer_falsy(b, order, drains)
     for rnd in range(2):
         emitted = []
         arrived = set()
@@ -103,18 +109,43 @@ def run_buffer(order, drains, via_call_chain):
     return None
 
 
-def run_print_buffer(order, drains, end):
+def _run_buffer_falsy(b, order, drains):
+    val = lambda serial: FALSY[serial % len(FALSY)]
+    emitted = 0
+    arrived = set()
+    for pos, serial in enumerate(order):
+        b(serial, val(serial))
+        arrived.add(serial)
+        if pos in drains or pos == len(order) - 1:
+            out = outcome(lambda: list(b))
+            k = 0
+            while k in arrived:
+                k += 1
+            want = [val(x) for x in range(emitted, k)]
+            if out[0] != "ok" or len(out[1]) != len(want) or any(type(a) is not type(w) or a != w for a, w in zip(out[1], want)):
+                return "buffer-falsy-items", (f"order {order}: drain after arrival #{pos} emitted {out}, expected {want!r} "
+                                              f"(items are None/0/''/()/False/0.0/[] by serial)")
+            emitted = k
+        if b.waiting_for() != emitted or len(b) != len(arrived) - emitted:
+            return "buffer-counters", (f"falsy items, order {order}: waiting_for={b.waiting_for()}, len={len(b)}; emitted "
+                                       f"{emitted}, held {len(arrived) - emitted}")
+    return None
+
+
+def run_print_buffer(order, drains, end, blank=False):
     """drains for PrintBuffer = positions after which the text printed so far is inspected (printing is eager)."""
     from windpyutils.buffers import PrintBuffer
     out = io.StringIO()
     pb = PrintBuffer(out, end=end)
+    txt = (lambda rnd, serial: "" if serial % 3 != 2 else f"<{rnd}:{serial}>") if blank else \
+        (lambda rnd, serial: f"<{rnd}:{serial}>")
     for rnd in range(2):
         out.seek(0)
         out.truncate(0)
         arrived = set()
         nprinted = 0
         for pos, serial in enumerate(order):
-            r = outcome(lambda: pb.print(serial, f"<{rnd}:{serial}>"))
+            r = outcome(lambda: pb.print(serial, txt(rnd, serial)))
             arrived.add(serial)
             k = 0
             while k in arrived:
@@ -125,7 +156,7 @@ def run_print_buffer(order, drains, end):
             nprinted = k
             if pos in drains:
                 text = out.getvalue()
-                want = "".join(f"<{rnd}:{s}>{end}" for s in range(nprinted))
+                want = "".join(f"{txt(rnd, s)}{end}" for s in range(nprinted))
                 if text != want:
                     return "print-order", f"order {order}: printed {text!r}, expected {want!r}"
             if pb.waiting_for != nprinted:
@@ -133,7 +164,7 @@ def run_print_buffer(order, drains, end):
             if len(pb) != len(arrived) - nprinted:
                 return "print-counters", f"len={len(pb)}, {len(arrived) - nprinted} held back"
         text = out.getvalue()
-        want = "".join(f"<{rnd}:{s}>{end}" for s in range(len(order)))
+        want = "".join(f"{txt(rnd, s)}{end}" for s in range(len(order)))
         if text != want:
             return "print-order", f"order {order}: final text {text!r}, expected {want!r}"
         # documented flush: prints the held items ascending, waiting_for -> largest+1 (unchanged when empty)
@@ -241,6 +272,18 @@ def run_shard(spec):
                     res.count("print_buffer_runs")
                     if bad:
                         report(bad, {"what": "print", "order": order, "drains": sorted(drains), "end": ["\n", "", "|"][mode]})
+                    if mode != 1:
+                        bad = run_buffer(order, drains, False, falsy=True)
+                        res.evaluations += 1
+                        res.count("buffer_runs_falsy_items")
+                        if bad:
+                            report(bad, {"what": "buffer-falsy", "order": order, "drains": sorted(drains), "chain": False})
+                        bad = run_print_buffer(order, drains, ["\n", "", "|"][mode], blank=True)
+                        res.evaluations += 1
+                        res.count("print_buffer_runs_blank_lines")
+                        if bad:
+                            report(bad, {"what": "print-blank", "order": order, "drains": sorted(drains),
+                                         "end": ["\n", "", "|"][mode]})
                 except instr.StepBudgetExceeded:
                     report(("operation-does-not-end", f"order {order}: statement budget exceeded"),
                            {"what": "buffer", "order": order, "drains": sorted(drains), "chain": False})
@@ -280,8 +323,10 @@ def replay(doc):
     c = doc["replay"]["case"]
     if c["what"] == "buffer":
         bad = run_buffer(c["order"], set(c["drains"]), c["chain"])
-    elif c["what"] == "print":
-        bad = run_print_buffer(c["order"], set(c["drains"]), c["end"])
+    elif c["what"] == "buffer-falsy":
+        bad = run_buffer(c["order"], set(c["drains"]), False, falsy=True)
+    elif c["what"] in ("print", "print-blank"):
+        bad = run_print_buffer(c["order"], set(c["drains"]), c["end"], blank=c["what"] == "print-blank")
     else:
         bad = run_circular(c["cap"], [(o, tuple(v) if v else None) for o, v in c["ops"]])
     if bad:
